@@ -75,10 +75,26 @@ func (l *tsLoader) GetModifiedTime(n string) (int64, error) {
 // scratch directories of this process ("fs" and "builtin" arrangements)
 var scratch string
 
+// scratchBase: a memory-backed directory when there is one (the histories create and remove a few
+// files each; on a disk file system that is most of the run time), the temporary directory otherwise.
+func scratchBase() string {
+	if os.Getenv("C15_SCRATCH_ON_DISK") == "" {
+		if fi, err := os.Stat("/dev/shm"); err == nil && fi.IsDir() {
+			if f, err := os.CreateTemp("/dev/shm", "c15-probe-*"); err == nil {
+				f.Close()
+				os.Remove(f.Name())
+				return "/dev/shm"
+			}
+		}
+	}
+	return os.TempDir()
+}
+
 func scratchDir(sub string) string {
 	if scratch == "" {
+		base := scratchBase()
 		// directories of processes that no longer exist (killed workers) are removed first
-		if old, _ := filepath.Glob(filepath.Join(os.TempDir(), "c15-fs-*")); len(old) > 0 {
+		if old, _ := filepath.Glob(filepath.Join(base, "c15-fs-*")); len(old) > 0 {
 			for _, d := range old {
 				var pid int
 				if _, err := fmt.Sscanf(filepath.Base(d), "c15-fs-%d", &pid); err == nil {
@@ -88,7 +104,7 @@ func scratchDir(sub string) string {
 				}
 			}
 		}
-		d := filepath.Join(os.TempDir(), fmt.Sprintf("c15-fs-%d", os.Getpid()))
+		d := filepath.Join(base, fmt.Sprintf("c15-fs-%d", os.Getpid()))
 		os.RemoveAll(d)
 		if err := os.Mkdir(d, 0o755); err != nil {
 			panic(err)
@@ -215,7 +231,10 @@ type variant struct {
 	// "builtin" like sep, followed by an empty ArrayLoader, FileSystemLoader and CompiledLoader;
 	// "fs" L1 is a real FileSystemLoader on a scratch directory (modification times set with Chtimes);
 	// "rev" L2 (plain) registered BEFORE L1 (timestamp-aware); "revfs" like rev with the real
-	// FileSystemLoader as L1; "ts2" L1 then L2, both timestamp-aware
+	// FileSystemLoader as L1; "ts2" L1 then L2, both timestamp-aware;
+	// "chainfs" one ChainLoader holding the real FileSystemLoader (L1) IN FRONT OF the in-memory L2;
+	// "chainfsrev" one ChainLoader holding the in-memory L2 in front of the real FileSystemLoader (L1);
+	// "chainrev" the in-memory counterpart of chainfsrev (ChainLoader with L2 before L1)
 	Arr string
 	// Start: "empty" loaders; "seeded" n1 in L1 and L2, n2 in L2; "late" n1 only in the loader that is
 	// registered last, n2 in L2
@@ -225,10 +244,16 @@ type variant struct {
 
 func (v variant) String() string { return v.Arr + "/" + v.Start + "/" + v.Reg }
 
-func (v variant) chain() bool   { return v.Arr == "chain" }
-func (v variant) l2first() bool { return v.Arr == "rev" || v.Arr == "revfs" } // L2 registered before L1
-func (v variant) l2ts() bool    { return v.Arr == "ts2" }                     // L2 reports timestamps
-func (v variant) realFS() bool  { return v.Arr == "fs" || v.Arr == "revfs" }
+func (v variant) chain() bool { // both loaders behind one ChainLoader
+	return v.Arr == "chain" || v.Arr == "chainfs" || v.Arr == "chainrev" || v.Arr == "chainfsrev"
+}
+func (v variant) l2first() bool { // L2 registered (or placed in the chain) before L1
+	return v.Arr == "rev" || v.Arr == "revfs" || v.Arr == "chainrev" || v.Arr == "chainfsrev"
+}
+func (v variant) l2ts() bool { return v.Arr == "ts2" } // L2 reports timestamps
+func (v variant) realFS() bool {
+	return v.Arr == "fs" || v.Arr == "revfs" || v.Arr == "chainfs" || v.Arr == "chainfsrev"
+}
 
 type placed struct {
 	loader int // 1 = L1, 2 = L2
@@ -317,8 +342,10 @@ func newWorldOpt(v variant, withEngine bool) *world {
 		return w
 	}
 	switch v.Arr {
-	case "chain":
+	case "chain", "chainfs":
 		w.e.RegisterLoader(twig.NewChainLoader([]twig.Loader{w.l1, w.l2}))
+	case "chainrev", "chainfsrev":
+		w.e.RegisterLoader(twig.NewChainLoader([]twig.Loader{w.l2, w.l1}))
 	case "builtin":
 		w.e.RegisterLoader(w.l1)
 		w.e.RegisterLoader(w.l2)
@@ -1019,9 +1046,11 @@ var closureClosed = map[string]bool{}
 func closureOf(v variant, maxStates int) ([][]op, bool) {
 	// the reference machine does not depend on the registration API, and the "builtin" and "fs"
 	// arrangements have the reference machine of "sep"
-	// (and "revfs" that of "rev")
+	// (and "revfs" that of "rev", "chainfs" that of "chain", "chainfsrev" that of "chainrev")
 	mv := variant{Arr: "sep", Start: v.Start, Reg: "str"}
 	switch {
+	case v.chain() && v.l2first():
+		mv.Arr = "chainrev"
 	case v.chain():
 		mv.Arr = "chain"
 	case v.l2first():
@@ -1104,6 +1133,15 @@ func plans(thorough bool) []plan {
 			later = append(later, variant{arr, start, "str"})
 		}
 	}
+	// a real FileSystemLoader INSIDE a ChainLoader, in front of ("chainfs") and behind ("chainfsrev") the
+	// in-memory loader that holds the same names; "chainrev" is the in-memory counterpart of the latter.
+	// The file is removed by delL1 and re-created by modL1; with the cache off (cache0, dev1) every lookup
+	// must fall through to the first loader that has the name at that moment
+	inChain := []variant{
+		{"chainfs", "seeded", "str"}, {"chainfs", "empty", "str"},
+		{"chainfsrev", "late", "str"}, {"chainfsrev", "seeded", "str"},
+		{"chainrev", "late", "str"},
+	}
 	if thorough {
 		for _, v := range all {
 			ps = append(ps, plan{v, 5, 3, false})
@@ -1113,6 +1151,13 @@ func plans(thorough bool) []plan {
 			ps = append(ps, plan{v, 5, 3, false})
 		}
 		ps = append(ps, plan{variant{"revfs", "late", "str"}, 4, 2, false})
+		for i, v := range inChain {
+			if i == 0 {
+				ps = append(ps, plan{v, 5, 3, false}) // chainfs/seeded
+			} else {
+				ps = append(ps, plan{v, 4, 2, false})
+			}
+		}
 		ps = append(ps, plan{variant{"sep", "seeded", "str"}, 6, 4, true}, plan{variant{"sep", "empty", "str"}, 6, 4, true})
 	} else {
 		for _, v := range all {
@@ -1123,6 +1168,9 @@ func plans(thorough bool) []plan {
 			ps = append(ps, plan{v, 4, 2, false})
 		}
 		ps = append(ps, plan{variant{"revfs", "late", "str"}, 3, 2, false})
+		for _, v := range inChain {
+			ps = append(ps, plan{v, 4, 2, false})
+		}
 		ps = append(ps, plan{variant{"sep", "seeded", "str"}, 5, 3, false})
 	}
 	return ps
@@ -1145,6 +1193,8 @@ func bfsPlans(thorough bool) []bfsPlan {
 			{variant{"rev", "empty", "str"}, all},
 			{variant{"ts2", "late", "str"}, 100000},
 			{variant{"revfs", "late", "str"}, 10000},
+			{variant{"chainfs", "seeded", "str"}, 20000},
+			{variant{"chainfsrev", "late", "str"}, 10000},
 		}
 	}
 	return []bfsPlan{
@@ -1156,6 +1206,9 @@ func bfsPlans(thorough bool) []bfsPlan {
 		{variant{"rev", "late", "str"}, 2400},
 		{variant{"ts2", "late", "str"}, 3200},
 		{variant{"revfs", "late", "str"}, 600},
+		// every state within four operations of the seeded start state, and then some
+		{variant{"chainfs", "seeded", "str"}, 2000},
+		{variant{"chainfsrev", "late", "str"}, 600},
 	}
 }
 
